@@ -39,6 +39,9 @@ class DirectFirmware:
 
     def receive(self, line):
         self.wire.append(line)
+        if line == "G4 P0" and getattr(self, "hs_report", False):
+            # a printer that was not reset by the connection answers the probing G4 P0 with an ok that carries a report
+            return self._out([("ok T:21.5 /0.0 B:22.25 /0.0", ("hs", line))])
         if line == "G4 P0" or line.startswith("N") or line.startswith("M110"):
             return self._out([("ok", ("hs", line))])
         k = len(self.user)
@@ -54,6 +57,9 @@ class DirectFirmware:
         if b == "probe+ok":
             # Grbl's comma-separated multi-axis forms
             return self._out([(f"[PRB:{val},2.500,-3.500:1]", ("report", k, ("X", float(val)))), ("ok", ("ack", k))])
+        if b == "int-report-in-ok":
+            # whole-number readings (no decimal point), as many firmwares print them
+            return self._out([(f"ok T:{k + 2}10 /210 B:60 /60", ("ack", k, ("T", float(f"{k + 2}10"))))])
         if b == "grbl-status+ok":
             return self._out([(f"<Idle|MPos:{val},0.000,0.000|FS:500,8000>", ("report", k, ("X", float(val)))), ("ok", ("ack", k))])
         if b == "report-in-ok":
@@ -82,6 +88,7 @@ def run_execution(cfg, prefix, record=False):
 def _run_execution(cfg, prefix, record=False):
     stmts = cfg["statements"]
     fw = DirectFirmware(cfg["behaviours"], greeting=cfg["greeting"])
+    fw.hs_report = bool(cfg.get("hs_report"))
     script = {"flow_control": cfg.get("mode", "serial") == "socket"}
     if "loss" in cfg["behaviours"]:
         # the connection drops when the k-th user statement is written: count handshake writes at run time
@@ -118,6 +125,7 @@ def _run_execution(cfg, prefix, record=False):
             marks["connect_exc"] = e
             return
         marks["connected_at"] = len(ex.dev.log)
+        marks["readings_after_connect"] = {n: w.get_parameter(n) for n in ("T", "B")}
         if cfg["regime"] == "Q":
             idle = 0
             while idle < 3:
@@ -403,7 +411,8 @@ def plan(tier):
                     yield {"statements": stmts, "behaviours": list(behs), "regime": regime, "greeting": greeting, "eager": eager, "line_points": lp}
     healthy = ["ok", "status+ok", "report+ok", "report-in-ok"]
     # readings in Grbl's multi-axis forms (probe result, status report)
-    for behs in (("probe+ok", "ok"), ("report+ok", "probe+ok"), ("grbl-status+ok", "probe+ok"), ("error", "grbl-status+ok")):
+    for behs in (("probe+ok", "ok"), ("report+ok", "probe+ok"), ("grbl-status+ok", "probe+ok"), ("error", "grbl-status+ok"),
+                 ("int-report-in-ok", "report+ok"), ("ok", "int-report-in-ok")):
         for c in cfgs(two, behs, ("Q", "L"), (None,), (False, True), True):
             items.append((c, 0 if tier == "quick" else 1, None))
     for behs in (("ok", "report+ok"), ("error", "ok"), ("probe+ok", "alarm")):
@@ -435,6 +444,9 @@ def plan(tier):
         # a statement with non-ASCII text (the builder hands comments to direct writers as UTF-8 like to any other writer)
         for behs in (("ok", "report+ok"), ("status+ok", "error")):
             for c in cfgs(["; café ü ∅", "M114"], behs, ("Q", "L"), (None,), (False, True), True):
+                items.append((c, 0, None))
+            # runs of blanks and tabs inside a statement reach the device as they are
+            for c in cfgs(["M117 Layer  1  of   10", "G1\tX20\t\tY20 ;  aligned   comment"], behs, ("Q", "L"), (None,), (False, True), True):
                 items.append((c, 0, None))
         # socket writer (device with flow control): same contract
         for behs in (("ok", "report+ok"), ("error", "report-in-ok"), ("status+ok", "loss"), ("Error+ok", "ok")):
